@@ -38,6 +38,17 @@ PROPS = {
         timeout_is_violation=True,
         **SIM,
     ),
+    "C13": dict(
+        level="exploration",
+        technique="generated multi-thread programs (rapidcheck tapes) against a server and a client context on loopback sockets with both I/O loops in their own threads and re-entering callbacks, built and run under ThreadSanitizer; lock-state invariants and a per-case watchdog (20 s; a program takes ~20 ms) as deadlock oracle",
+        level_text="Programs of 2..8 application threads with 3..24 operations each (send, observe, async, notify, session create/release, resource add/delete, cache, ping) plus two I/O threads; the operating system owns the schedule.",
+        level_note="Trusted base: ThreadSanitizer (happens-before race detection does not need the racy accesses to coincide, only to be unordered), the lock-state probes in props/C13.cc. One TSan suppression (props/tsan.supp) for the recorded known finding. The autotools build is not exercised (its tools need network-fetched macros here); the CMake build is the one every check rebuilds. A race on a path no generated program reaches is not found.",
+        quick=rc(8, 500),
+        thorough=rc(12, 8000),
+        flavour="tsan",
+        case_timeout=20,
+        min_repro=1,
+    ),
     "C19": dict(
         level="exploration",
         technique="simulation-based property testing: libcoap client and server (GnuTLS PSK, DTLS and TLS) on a virtual network with GnuTLS on the virtual clock; generated credential relations, requests queued before the handshake, datagram faults and injected cleartext; handler / NACK / event logs and a cleartext-marker scan of every byte on the wire as oracle",
